@@ -171,6 +171,14 @@ def gen_random(rng):
                                 convert=convert, attrs_p=0.08, long_p=rng.choice([0, 0, 0.1, 0.3]),
                                 attr_names=["text_font", "text_font_size", "text_format", "text_justification",
                                             "border_top", "border_bottom", "cell_height"])
+        pbn = spec["body"].get("page_by") or []
+        nn = len(spec["df"]["cols"][0]["values"])
+        if pbn and not spec["body"].get("subline_by") and nn >= 3 and rng.random() < 0.15:
+            # page_by values that come back after another value (A, B, A): the rows still appear in input order
+            col = next(c for c in spec["df"]["cols"] if c["name"] == pbn[-1])
+            i, j = sorted(rng.sample(range(nn), 2))
+            col["values"][j] = col["values"][0]
+            col["values"][i] = col["values"][-1]
         if not convert and rng.random() < 0.3:
             # the very same string once with conversion on (title, rendered first) and once with it off (cell)
             cands = [v for c in spec["df"]["cols"] if c["dtype"] == "str" for v in c["values"]
